@@ -9,6 +9,10 @@ NOTE = ("Trusted: Lean 4.33 kernel; axioms propext, Classical.choice, Quot.sound
         "harness/translate.py; the correspondence check (differential testing, generator quality bounds what it sees). ")
 
 CHECKS = {
+    "C06": dict(
+        text="Proved on the model of _detect_columns: for EVERY header row in which each quantity occurs at most once and every header is a recognised alias, optionally preceded by '-' or U+2212 and optionally followed by a unit suffix starting (after at most one blank) with '(' '/' or '[' - any alias, any marker, any suffix text, any column order - every quantity is mapped to its own column and flagged sign-inverted exactly when marked (classify_header, detect_columns_correct; the finite core over 26 aliases x 3 markers x 6 suffix starts is decided by kernel evaluation, the arbitrary suffix tail by a prefix lemma); the CLI's own header row is detected (cli_header_is_detected). Proved on the model of _split_sweeps: the concatenation of k >= 1 strictly monotone runs whose junctions break the direction is split into exactly those runs (split_sweeps_concat). Ties: both functions compared with the model on generated and adversarial inputs. PARTIAL: separators, decimal marks, polar/cartesian extraction and the instrument layouts (.mpt .i2b .P00 .dfr .dta .z) are decided by the direct oracle on real temporary files.",
+        ref="§4 C06", tech=TECH_H,
+        note=NOTE + "pandas (read_csv, separator sniffing, dtype inference), str.lower/str.strip and file encodings are runtime."),
     "C15": dict(
         text="Proved on the model of the registry dictionaries: after ANY history of registrations (valid, inconsistent, duplicate-symbol, invalid-symbol, incomplete, built-in class; private or not), removals, resets and default-value changes the tables stay dictionaries, every built-in symbol is still registered and still maps to its original class (builtins_preserved), reset() makes the element table equal to the built-in table again (reset_restores_elements), a definition whose impedance contradicts its equation is refused without touching the table (inconsistent_refused), and a definition whose class is a built-in class is refused outright (builtin_class_refused). Tie: random histories compared step by step (get_elements with all four flag combinations and the built-in classes' default values) with the real registry. PARTIAL: 'the parser recognises exactly the registered symbols', longest-symbol tokenisation and restoration of the private-flag table / class default values after reset are checked on the implementation (and by the correspondence), not proved.",
         ref="§4 C15", tech=TECH_H,
